@@ -14,6 +14,7 @@ import (
 
 	"github.com/samsarahq/thunder/graphql"
 	"github.com/samsarahq/thunder/graphql/introspection"
+	"github.com/samsarahq/thunder/internal/verifhook"
 )
 
 const keyField = "__key"
@@ -116,6 +117,9 @@ func NewExecutor(ctx context.Context, executors map[string]ExecutorClient, c *Sc
 			plannerMu:    &sync.RWMutex{},
 			planner:      planner,
 		},
+	}
+	if d := verifhook.SyncInterval(); d > 0 {
+		executor.syncer.ticker.Reset(d)
 	}
 	go executor.poll(ctx)
 	return executor, nil
